@@ -125,6 +125,7 @@ type vc struct {
 	curCall           ssa.CallInstruction // the call instruction being modelled (stdlib models that need operand types)
 	pendingBinds      []Val               // captured variables of the closure whose contract is being applied
 	counted           map[string]bool     // call sites with a ghost counter (calls("callee#k") in the contract)
+	rtypeAxiom        bool                // the canonicity axiom of reflect.Type descriptors has been emitted
 	escInfo           *escInfo            // non-escaping allocation sites of the function under verification (localobj.go)
 	hasLocal          bool
 	counters          map[string]int
